@@ -24,6 +24,8 @@ struct cumem_mgr {
     long allocs, frees, reallocs;
     int double_free, unknown_free, overrun;
     bool dead; /* manager refcount reached 0 */
+    int fail_in; /* fault injection: the fail_in-th next allocation / reallocation is refused (0: never) */
+    int faults;  /* refusals so far */
     char err[200];
     /* optional hook called just before an area is released */
     void (*on_free)(struct cumem_mgr *, uint8_t *buf, size_t size);
@@ -60,6 +62,10 @@ static bool cumem_alloc(struct umem_mgr *mgr, struct umem *umem, size_t size)
     struct cumem_mgr *c = cumem_mgr_from_umem_mgr(mgr);
     if (c->nlive >= CU_MAXLIVE)
         return false;
+    if (c->fail_in > 0 && --c->fail_in == 0) {
+        c->faults++;
+        return false;
+    }
     uint8_t *raw = malloc(size + 2 * CU_GUARD);
     if (raw == NULL)
         return false;
@@ -88,6 +94,10 @@ static bool cumem_realloc(struct umem *umem, size_t new_size)
     if (!cumem_check_guards(umem->buffer, c->live[i].size)) {
         c->overrun++;
         snprintf(c->err, sizeof(c->err), "guard zone of a %zu-octet area overwritten (seen at realloc)", c->live[i].size);
+    }
+    if (c->fail_in > 0 && --c->fail_in == 0) {
+        c->faults++;
+        return false;
     }
     uint8_t *raw = malloc(new_size + 2 * CU_GUARD);
     if (raw == NULL)
